@@ -385,11 +385,11 @@ type Network struct {
 	// Partition maps node idx -> group id (nil = no partition)
 	Partition map[int]int
 	// FFServe restricts which nodes answer fast-forward requests (nil = all)
-	FFServe     map[int]bool
+	FFServe map[int]bool
 	// FFTamper, when set, lets the relay alter a fast-forward response on its
 	// way to the requester (it must work on copies: the response may share maps
 	// with the serving node's cached block)
-	FFTamper func(resp *bnet.FastForwardResponse)
+	FFTamper    func(resp *bnet.FastForwardResponse)
 	Rec         *Recorder
 	Mons        []Monitor
 	joinOf      map[int]*pendingJoin
@@ -419,7 +419,7 @@ type Network struct {
 	// AfterStepHook, if set, runs after every step before the monitors
 	AfterStepHook   func(nw *Network)
 	lastEagerFailed bool
-	ffJunkOffered   bool // the relay added signature entries to a response during the current fast-forward
+	ffJunkOffered   bool     // the relay added signature entries to a response during the current fast-forward
 	ffOffers        [][2]int // (block index, round received) of the fast-forward responses seen during the current step
 	idleAfterFair   bool
 	lostPool        map[int]bool // nodes that were restarted (their pending pool is legitimately gone)
